@@ -221,8 +221,14 @@ def frag(spec):
     src = p.get("src") or rng.choice(fragments.SOURCES)
     entries, allw = [], []
     used = []
+    minlen, maxlen = p.get("minlen", 3), p.get("maxlen", 10)
+    if p.get("long_max"):
+        # long stretches of the real proteins (deep hydrogen-bond networks, real packing, disulfides in context)
+        maxlen = p["long_max"]
+        longest = max(len(r) for r in fragments.runs(src))
+        minlen = min(p.get("long_min", 30), longest)
     for c in range(nwin):
-        win, wat, _ = fragments.window(rng, src, p.get("minlen", 3), p.get("maxlen", 10), waters=True,
+        win, wat, _ = fragments.window(rng, src, minlen, maxlen, waters=True,
                                        strip_h=rng.random() < 0.5, only_complete=p.get("only_complete", False))
         key = {r["src"] for r in win}
         if any(key & u for u in used):
@@ -375,6 +381,21 @@ def standard_cases(tier, seed, n_quick, n_thorough, opts_fn=None, ffs=FFS, frag_
         ff = ffs[i % len(ffs)]
         w = "frag" if rng.random() < frag_share else "synth"
         spec = {"w": w, "seed": seed * 1000003 + i, "ff": ff, "p": dict(p or {})}
+        spec["opts"] = opts_fn(rng, spec) if opts_fn else []
+        out.append(spec)
+    return out
+
+
+def long_cases(seed, n, opts_fn=None, ffs=FFS, long_max=400, p=None):
+    """Long stretches (30..long_max residues, whole chains when they fit) of the local real proteins, cycling over
+    sources and force fields: deep hydrogen-bond networks, real packing and real disulfides."""
+    rng = random.Random(seed * 6151 + 3)
+    out = []
+    for i in range(n):
+        ff = ffs[(i // len(fragments.SOURCES)) % len(ffs)] if n > len(fragments.SOURCES) else ffs[i % len(ffs)]
+        pp = dict(p or {})
+        pp.update({"src": fragments.SOURCES[i % len(fragments.SOURCES)], "nwin": 1, "long_max": long_max})
+        spec = {"w": "frag", "seed": seed * 2000003 + i, "ff": ff, "p": pp}
         spec["opts"] = opts_fn(rng, spec) if opts_fn else []
         out.append(spec)
     return out
